@@ -4,6 +4,29 @@ use crate::tok::{R, W};
 use bed_utils::bed::GenomicRange;
 
 pub const CHROMS: &[&str] = &["chr1", "chr2", "chr10", "chr", "c", "chrX", "chr1_alt"];
+/// names that are DIFFERENT chromosomes but equal under some common normalisation of another name in the pool
+/// (leading zeros inside a digit run, letter case, surrounding white space, Unicode look-alikes, prefix/suffix)
+pub const CHROM_VARIANTS: &[(&str, &[&str])] = &[
+    ("chr1", &["chr01", "chr001", "Chr1", "CHR1", "chr1 ", " chr1", "chr１", "chr1.", "1", "chr1_", "chr11"]),
+    ("chr2", &["chr02", "chr2\u{301}", "Chr2", "chr2 ", "2"]),
+    ("chr10", &["chr010", "chr1０", "chr100", "CHR10"]),
+    ("chr", &["CHR", "chr ", "ch"]),
+    ("c", &["C", "c ", "\u{441}"]),
+    ("chrX", &["chrx", "chrX ", "chr23", "X"]),
+    ("chr1_alt", &["chr01_alt", "chr1_ALT", "chr1_alt2"]),
+];
+/// `n` chromosome names: from the pool; each further one is, half of the time, a near-miss variant of an earlier one
+pub fn gen_chroms(rng: &mut Rng, n: usize) -> Vec<&'static str> {
+    let mut v: Vec<&'static str> = vec![];
+    for i in 0..n {
+        if i > 0 && rng.chance(1, 2) {
+            let base = *rng.pick(&v);
+            if let Some((_, vars)) = CHROM_VARIANTS.iter().find(|(b, _)| *b == base) { v.push(*rng.pick(vars)); continue; }
+        }
+        v.push(*rng.pick(CHROMS));
+    }
+    v
+}
 
 #[derive(Clone, Debug, PartialEq, Eq)]
 pub struct Rec { pub chrom: String, pub start: u64, pub end: u64 }
@@ -26,6 +49,13 @@ pub fn shrink_vec<T: Clone>(v: &[T]) -> Vec<Vec<T>> {
     if v.len() > 3 {
         out.push(v[..v.len() / 2].to_vec());
         out.push(v[v.len() / 2..].to_vec());
+    }
+    if v.len() > 200 {
+        // long lists: sixteen slices instead of every single deletion (the candidates of a 10^5-element list
+        // would not fit in memory)
+        let step = v.len() / 16;
+        for k in 0..16 { let mut c = v[..k * step].to_vec(); c.extend_from_slice(&v[(k + 1) * step..]); out.push(c); }
+        return out;
     }
     for i in 0..v.len() {
         let mut c = v.to_vec();
@@ -169,3 +199,31 @@ pub fn shrink_flavoured(t: &[String], inner: impl Fn(&[String]) -> Vec<Vec<Strin
     out.extend(inner(base).into_iter().map(|c| push_flavour(c, fl)));
     out
 }
+
+/// The ways a caller may consume an iterator the library returns. All of them must yield the same item
+/// sequence: 0 `collect`; 1 `next()` until `None` (and twice more: it must stay ended); 2 a few `next()` then
+/// `fold`; 3 a few `next()` then `for_each`; 4 `size_hint` before every `next()`; 5 a few `next()` then
+/// `by_ref().count()` compared with the remaining length (the items themselves re-read by a second pass are
+/// not available, so this mode returns what it saw plus `None` markers — use only with `drain_checked`).
+pub fn drain_mode<I: Iterator>(mut it: I, mode: u64) -> Vec<I::Item> {
+    let k = ((mode / 8) % 3 + 1) as usize;
+    match mode % 5 {
+        0 => it.collect(),
+        1 => { let mut v = vec![]; while let Some(x) = it.next() { v.push(x); } assert!(it.next().is_none() && it.next().is_none(), "iterator yields again after None"); v }
+        2 => { let mut v = vec![]; for _ in 0..k { match it.next() { Some(x) => v.push(x), None => return v } } it.fold(v, |mut v, x| { v.push(x); v }) }
+        3 => { let mut v = vec![]; for _ in 0..k { match it.next() { Some(x) => v.push(x), None => return v } } it.for_each(|x| v.push(x)); v }
+        _ => { let mut v = vec![]; loop { let (lo, hi) = it.size_hint(); match it.next() { Some(x) => { assert!(hi.map_or(true, |h| h >= 1), "size_hint upper bound 0 but an item follows"); let _ = lo; v.push(x); } None => { assert!(lo == 0, "size_hint lower bound {} but the iterator is exhausted", lo); break; } } } v }
+    }
+}
+/// consumption mode of a case: a function of its tokens (so that it replays), spread over the modes
+pub fn mode_of(t: &[String]) -> u64 {
+    let mut h: u64 = 1469598103934665603;
+    for s in t { for b in s.bytes() { h ^= b as u64; h = h.wrapping_mul(1099511628211); } h ^= 0x20; h = h.wrapping_mul(1099511628211); }
+    h >> 7
+}
+
+thread_local! { static CASE_MODE: std::cell::Cell<u64> = std::cell::Cell::new(0); }
+/// start of a case: the consumption modes used inside it are a function of its tokens
+pub fn set_case_mode(t: &[String]) { CASE_MODE.with(|m| m.set(mode_of(t))); }
+/// the next consumption mode of the running case
+pub fn next_mode() -> u64 { CASE_MODE.with(|m| { let v = m.get(); m.set(v.wrapping_mul(6364136223846793005).wrapping_add(1442695040888963407)); v >> 11 }) }
